@@ -300,6 +300,40 @@ def _child_main(n):
                         seen.add(klass)
                         out["viols"].append({"sig": {"klass": klass}, "what": "%s on %s (%s): %s" % (name, list(vec), mode, text),
                                              "case": {"e1": name, "vals": list(vec), "mode": mode}})
+        # cross-feature compositions (pv/xfeat.py) through the real backend and its serializer: first and last input
+        # vector of every program, live and under a false guard
+        from .. import xfeat as X
+        xprogs = []
+        for first in X.FIRST:
+            xprogs += X.enumerate_from(first, 2, X.NEXT_OPS[:40])
+        out["xfeat_programs"] = len(xprogs)
+        for prog in xprogs:
+            vecs = X.vectors(prog)
+            for vec in ([vecs[0], vecs[-1]] if len(vecs) > 1 else vecs):
+                for mode in ("plain", "g0"):
+                    r = X.execute(prog, vec, mode)
+                    if r.status != "ok":
+                        continue
+                    pub, priv = list(B.pubvals), list(B.privvals)
+                    cons = []
+                    for a, b, c in B.constraints:
+                        tri = []
+                        for lc in (a, b, c):
+                            d = {}
+                            for k, co in lc.lc.items():
+                                nm = "one" if k == 0 else (("pub", k) if k > 0 else ("priv", -k))
+                                if co % p:
+                                    d[nm] = co % p
+                            tri.append(d)
+                        cons.append(tuple(tri))
+                    B.prove()
+                    out["traces"] += 1
+                    for klass, text in check_files(pub, priv, cons, p, None):
+                        if ("x", klass) in seen:
+                            continue
+                        seen.add(("x", klass))
+                        out["viols"].append({"sig": {"klass": klass, "engine": "xfeat"}, "what": "cross-feature program [%s] on %s (%s): %s" % (X.prog_str(prog), list(vec), mode, text),
+                                             "case": {"xprog": [list(s_) for s_ in prog], "vals": list(vec), "mode": mode}})
     finally:
         os.chdir("/")
         shutil.rmtree(tmp, True)
